@@ -16,7 +16,7 @@ def obligations(tier):
     obs = []
     for w, styles in (("dfxp", "i"), ("sami", "ibu"), ("vtt", "ibu")):
         for st in styles:
-            for k in ((4,) if q else (5, 7)):
+            for k in ((4,) if q else (5, 6)):
                 obs.append(ch(f"{w}_write_{st}{k}", "harness.C11_styles", timeout=T, functions=FN[w], exhaustive=True,
                               bounds=f"all flat balanced sequences of {k} nodes over TEXT / BREAK / START / END of a {'italic' if st == 'i' else 'bold' if st == 'b' else 'underline'} span"))
         obs.append(ch(f"{w}_write_mixed", "harness.C11_styles", timeout=T, functions=FN[w], exhaustive=True,
